@@ -560,6 +560,14 @@ def rule_names(check):
     check.expect(users == ["dd_global_method_invocation"], R, R + "/namespace-users", "-", "DD_GLOBAL_NAMESPACE used only in dd_global_method_invocation", "DD_GLOBAL_NAMESPACE is used in %s" % users)
     tpl = prog.js.get("__prologue_template_text") or ""
     check.expect(("globals.%s = globals.%s ||" % (val, val)) in tpl.replace("  ", " "), R, R + "/prologue-namespace", "src/rewriter.rs", "the prologue defines the same namespace", "the prologue template does not define globals.%s" % val)
+    # ... on the global object, found in a way that does not depend on where the file runs: the IIFE's
+    # argument is the indirect eval / globalThis, never the top-level `this` (module.exports in CommonJS,
+    # undefined in ES modules and strict wrappers)
+    import re as _re
+    m_ = _re.search(r"\}\s*\((.*)\)\s*\)\s*;?\s*$", tpl.strip())
+    arg_ = (m_.group(1).strip() if m_ else "")
+    GLOBAL_OBJECT = ("(1,eval)('this')", "(1, eval)('this')", '(1,eval)("this")', '(1, eval)("this")', "globalThis", "(0,eval)('this')", "(0, eval)('this')", "Function('return this')()")
+    check.expect(arg_ in GLOBAL_OBJECT, R, R + "/prologue-global-object", "src/rewriter.rs", "the namespace is attached to the global object (%s)" % arg_, "the prologue attaches the namespace to `%s`, which is not the global object wherever the file runs (CommonJS: module.exports, ES module: undefined): the hooks of a rewritten file loaded before the tracer are undefined" % (arg_ or "?"))
 
 
 def rule_prologue(check):
@@ -584,6 +592,11 @@ def rule_prologue(check):
                     if idm[0] == "after-last":
                         check.bad(R, "%s/position/%s" % (R, g_.name), hir.loc(n_), "the file prologue is inserted after the *last* string-literal statement of the file instead of after the leading directives: hook calls above it run before `_ddiast` has its fall-back definition")
     g = prog.fn("rewriter::generate_prefix_stmts")
+    # the part of it (itself or a helper) that fills the template
+    for g_ in prog.flat(g, 2):
+        if any(hir.lit_value(hir.call_args(x)[1]) == "__CSI_METHODS__" for x in hir.calls_in(g_.body, name="replace") if len(hir.call_args(x)) > 1):
+            g = g_
+            break
     fm = fmtargs.formats_in(g)
     ok = False
     for n, pieces in fm:
